@@ -56,7 +56,9 @@ def gen_case(rng, tier):
     if shape.endswith("null"):
         for _ in range(rng.randint(1, 3)):
             col[rng.randrange(1 if shape == "prefix_null" else 0, n)] = None
-    kind = rng.choice([k for k in ["float", "int", "str", "dt"] if api.kind_ok(col, k)])
+    if rng.random() < 0.12:
+        col = [None if r is None else r % 2 for r in col]        # two labels at most: also boolean keys
+    kind = rng.choice([k for k in ["float", "int", "str", "dt", "bool", "bool"] if api.kind_ok(col, k)])
     nkeys = 1 if rng.random() < 0.8 else 2
     keycols = [col] + [[rng.randrange(2) for _ in range(n)] for _ in range(nkeys - 1)]
     kinds = [kind] + ["int"] * (nkeys - 1)
@@ -84,7 +86,7 @@ def gen_case(rng, tier):
         times.append(t)
     params["times"] = times
     strat = rng.choice(STRATS if nkeys == 1 else ["threads", "valchunks", "threads+valchunks"])
-    return dict(keycols=keycols, kinds=kinds, vals=vals, op=op, mask=mask, mk=mk, params=params, strat=strat, shape=shape,
+    return dict(sort=rng.random() < 0.7, keycols=keycols, kinds=kinds, vals=vals, op=op, mask=mask, mk=mk, params=params, strat=strat, shape=shape,
                 key_chunks=split_points(rng, n), val_chunks=split_points(rng, n, allow_empty=False), jitter=rng.randrange(1000))
 
 
@@ -145,7 +147,7 @@ def run_strategy(GroupBy, c, strat):
     with api.strategy(chunk_threshold=4 if "chunked" in parts else None,
                       rows_per_thread=2 if "threads" in parts else None,
                       jitter_seed=c["jitter"] if "jitter" in parts else None):
-        gb = GroupBy(keys if len(keys) > 1 else keys[0])
+        gb = GroupBy(keys if len(keys) > 1 else keys[0], sort=c.get("sort", True))
         info = dict(chunked=bool(gb.key_is_chunked), pointers=gb._group_key_pointers is not None)
         out = call_op(gb, c["op"], v, mask, c["params"], n)
         return canon(out, c["kinds"], c["op"]), info
@@ -164,7 +166,7 @@ def same(a, b, approx):
 
 
 def case_json(c):
-    return dict(keys=c["keycols"], key_kinds=c["kinds"], values=[None if v is None else str(v) for v in c["vals"]], op=c["op"], mask=c["mask"],
+    return dict(sort=c.get("sort", True), keys=c["keycols"], key_kinds=c["kinds"], values=[None if v is None else str(v) for v in c["vals"]], op=c["op"], mask=c["mask"],
                 strategy=c["strat"], key_chunks=c["key_chunks"], val_chunks=c["val_chunks"], jitter=c["jitter"], params=c["params"], shape=c["shape"], mk=c["mk"])
 
 
@@ -374,7 +376,7 @@ def replay(payload):
     c0 = payload["case"]
     if c0.get("level") == "kernel":
         return False, "replay: kernel-level case, re-run ./bin/check C03; stored case: " + str(c0)
-    c = dict(keycols=c0["keys"], kinds=c0["key_kinds"], vals=[None if v is None else Fraction(v) for v in c0["values"]], op=c0["op"],
+    c = dict(sort=c0.get("sort", True), keycols=c0["keys"], kinds=c0["key_kinds"], vals=[None if v is None else Fraction(v) for v in c0["values"]], op=c0["op"],
              mask=None if c0["mask"] is None else tuple(c0["mask"]), mk=c0["mk"], params=c0["params"], strat=c0["strategy"], shape=c0["shape"],
              key_chunks=c0["key_chunks"], val_chunks=c0["val_chunks"], jitter=c0["jitter"])
     v, _ = run_case(GroupBy, c)
